@@ -1,6 +1,6 @@
 """C16 — infix_notation honours precedence, associativity and arity.
 
-proof:           lean/PPProofs/Props/C16.lean about lean/PPModel/Mod/Infix.lean: `infixGrammar tbl` (the node table
+proof:           lean/PPProofs/Props/C16.lean and C16Left.lean about lean/PPModel/Mod/Infix.lean: `infixGrammar tbl` (the node table
                  infix_notation builds, after streamline) parsed by `parseX` (the shared parse model + the captive `_FB`
                  lookahead class) yields `nest tbl t` on `render tbl t`, for ALL trees t in normal form (see META).
 tie:             (S) structure: the node table extracted from the LIVE infix_notation(...) object is compared, up to
@@ -21,17 +21,22 @@ from .. import common, corr_parse, gram
 from ..sexp import Sym, dumps, loads
 
 META = dict(
-    text="Lean theorem PP.Infix.infix_roundtrip_partial (PPProofs/Props/C16.lean), for ALL operator tables of class T with ANY "
-         "number of levels and ALL expression trees of ALL sizes in the table's normal form, written with arbitrary blanks "
-         "before every token and trailing blanks: parse_string(parse_all=True) of the model parser (shared parse model + the "
-         "captive _FB lookahead) on infixGrammar(table) returns exactly [nest table tree] for every fuel from some point on "
-         "- tighter levels nest inside looser ones, right-associative chains nest to the right, prefix operators stack, "
-         "parentheses override both. Class T: operand Word(cs); suppressed parentheses; every level a RIGHT-associative "
-         "binary or a prefix operator without parse action; spellings non-empty, not starting with a blank or operand "
-         "character, pairwise prefix-incomparable. Supporting theorems (all kinds-independent): goal_lift (a tighter tree "
-         "passes through a looser level unchanged: the _FB lookahead fails), goal_atom/goal_paren/goal_pre/goal_binR. "
+    text="Lean theorem PP.Infix.infix_roundtrip_left_partial (PPProofs/Props/C16Left.lean), for ALL operator tables of class TL "
+         "with ANY number of levels (in any order) and ALL expression trees of ALL sizes in the table's normal form, written "
+         "with arbitrary blanks before every token and trailing blanks: parse_string(parse_all=True) of the model parser "
+         "(shared parse model + the captive _FB lookahead) on infixGrammar(table) returns exactly [nest table tree] for every "
+         "fuel from some point on - tighter levels nest inside looser ones, a LEFT-associative chain a op b op c is ONE flat "
+         "group [a, op, b, op, c] (chains of any length; loop induction over manyLoop), right-associative chains nest to the "
+         "right, prefix operators stack, parentheses override all. Class TL: operand Word(cs); suppressed parentheses; every "
+         "level a LEFT- or RIGHT-associative binary or a prefix operator without parse action; spellings non-empty, not "
+         "starting with a blank or operand character, pairwise prefix-incomparable. PP.Infix.infix_roundtrip_partial "
+         "(PPProofs/Props/C16.lean) is the earlier statement for class T (no LEFT-associative levels); it is kept and is an "
+         "instance of the new one (infix_roundtrip_left_covers_right). Supporting theorems: Left.goal_binL / Left.chain_parse "
+         "(the _FB lookahead succeeds on a op b, then Group(last + (op + last)[1,...]) collects the whole chain and stops where "
+         "the operator literal does not match), Left.goal_lift (a tighter tree passes through a looser level unchanged: the _FB "
+         "lookahead fails), Left.goal_atom/goal_paren/goal_pre/goal_binR, chain_nest (nest of a left chain is one flat group). "
          "PARTIAL - NOT proved, covered by the correspondence legs and the independent precedence-climbing oracle only: "
-         "LEFT-associative levels (flat group [a op b op c]), postfix and ternary levels, kept (non-Suppress) parentheses, "
+         "postfix and ternary levels, kept (non-Suppress) parentheses, "
          "level parse actions, overlapping spellings (<, <=, *, **), ill-formed strings, evaluation (a corollary of the "
          "nesting) and packrat (C02's packrat_transparent covers the shared model, not parseStepX/_FB; packrat is compared on "
          "the real code on every case).",
@@ -52,6 +57,19 @@ THEOREMS = [
     "PP.Infix.goal_paren",
     "PP.Infix.goal_pre",
     "PP.Infix.goal_binR",
+    # LEFT-associative binary levels (PPProofs/Props/C16Left.lean, PPProofs/Lemmas/InfixLeft.lean)
+    "PP.Infix.infix_roundtrip_left_partial",
+    "PP.Infix.infix_roundtrip_left_covers_right",
+    "PP.Infix.Left.goal_all",
+    "PP.Infix.Left.lift_all",
+    "PP.Infix.Left.goal_binL",
+    "PP.Infix.Left.chain_parse",
+    "PP.Infix.Left.chain_nest",
+    "PP.Infix.Left.goal_lift",
+    "PP.Infix.Left.goal_atom",
+    "PP.Infix.Left.goal_paren",
+    "PP.Infix.Left.goal_pre",
+    "PP.Infix.Left.goal_binR",
 ]
 
 WS_DEFAULT = " \t\n\r"
@@ -1036,7 +1054,7 @@ def juxta_job(seed):
 def run(ctx):
     common.import_pyparsing()
     if THEOREMS:
-        ctx.proof_leg("PPProofs.Props.C16", THEOREMS)
+        ctx.proof_leg("PPProofs.Props.C16", THEOREMS, extra_modules=("PPProofs.Props.C16Left",))
     else:
         b = common.lake_build(["PPModel", "ppdriver"])
         if not b.ok:
